@@ -1,6 +1,7 @@
-(* The write stream wrapper: responses are matched to requests in send order, every Send() returns at most
-   once, and once the stream context is done every Send() has returned -- for every interleaving of sends,
-   responses, receive errors and stream closure. *)
+(* The write stream wrapper: responses are matched to requests in send order -- also when callers abandon
+   requests that are already on the wire (per-request timeout / cancellation) --, every Send() returns at most
+   once, and once the stream context is done every Send() has returned: for every interleaving of sends,
+   responses, receive errors, per-request cancellations and stream closure. *)
 From Coq Require Import List NArith ZArith Bool Lia Arith Permutation.
 From Oxia.Client Require Import Model.
 Import ListNotations.
@@ -29,6 +30,41 @@ Fixpoint sticky (broken : bool) (evs : list sevent) : Prop :=
   | SCtxDone :: r => sticky true r
   | _ :: r => sticky broken r
   end.
+
+Definition next_broken (broken : bool) (ev : sevent) : bool :=
+  match ev with SSend _ ok => broken || negb ok | SCtxDone => true | _ => broken end.
+
+Lemma sticky_cons broken ev evs :
+  sticky broken (ev :: evs) ->
+  (forall f ok, ev = SSend f ok -> broken = true -> ok = false) /\ sticky (next_broken broken ev) evs.
+Proof.
+  destruct ev as [f ok|r| | |g]; cbn; intros H; (split; [intros ? ? E; inversion E; subst; tauto|tauto]).
+Qed.
+
+(* ---- abandoning a request ---- *)
+
+Lemma abandon_spec f : forall p p',
+  abandon f p = Some p' ->
+  Permutation (live_ids p) (f :: live_ids p') /\ map fst p' = map fst p.
+Proof.
+  induction p as [|[g live] tl IH]; intros p' H; cbn [abandon] in H; [discriminate|].
+  destruct (N.eqb g f && live) eqn:E.
+  - inversion H; subst. apply andb_true_iff in E. destruct E as (E & ->). apply N.eqb_eq in E. subst g.
+    split; reflexivity.
+  - destruct (abandon f tl) as [tl'|]; [|discriminate]. inversion H; subst.
+    destruct (IH tl' eq_refl) as (P & M). split; [|cbn; now rewrite M].
+    unfold live_ids in *. cbn [flat_map fst snd]. destruct live; cbn [app]; [|exact P].
+    rewrite P. apply perm_swap.
+Qed.
+
+Lemma abandon_none_of_dead f p : live_ids p = [] -> abandon f p = None.
+Proof.
+  induction p as [|[g live] tl IH]; intros H; [reflexivity|]. cbn [abandon].
+  unfold live_ids in H. cbn [flat_map fst snd] in H. destruct live; [discriminate|].
+  rewrite andb_false_r. cbn in H. rewrite (IH H). reflexivity.
+Qed.
+
+
 
 (* ---- no panic (fixed code), at-most-once, completion after closure ---- *)
 
@@ -66,43 +102,50 @@ Lemma stream_step_count s ev :
   exists s' o, stream_step true s ev = (s', o) /\ ss_dead s' = false /\ ~ In SPanicked o /\
     Permutation (live_ids (ss_pending s) ++ match ev with SSend f _ => [f] | _ => [] end)
                 (done_ids o ++ live_ids (ss_pending s')) /\
-    (ss_closed_exited s = true \/ ev = SCtxDone -> ss_closed_exited s' = true) /\
+    (ss_closed_exited s' = true <-> (ss_closed_exited s = true \/ ev = SCtxDone)) /\
     (ev = SCtxDone -> ss_closed_exited s = false -> live_ids (ss_pending s') = []).
 Proof.
-  intros Hd. unfold stream_step. rewrite Hd. destruct ev as [f ok|r| |].
+  intros Hd. unfold stream_step. rewrite Hd. destruct ev as [f ok|r| | |g].
   - destruct ok.
     + eexists _, _. split; [reflexivity|]. cbn [ss_dead ss_pending ss_closed_exited].
-      split; [reflexivity|]. split; [intros []|]. split; [|split; [intros [H|H]; [exact H|discriminate]|discriminate]].
+      split; [reflexivity|]. split; [intros []|]. split; [|split; [split; [auto|intros [H|H]; [exact H|discriminate]]|discriminate]].
       rewrite live_ids_app. reflexivity.
     + eexists _, _. split; [reflexivity|]. cbn [ss_dead ss_pending ss_closed_exited].
       split; [reflexivity|]. split; [intros [H|[]]; discriminate|].
-      split; [|split; [intros [H|H]; [exact H|discriminate]|discriminate]].
+      split; [|split; [split; [auto|intros [H|H]; [exact H|discriminate]]|discriminate]].
       rewrite live_ids_app. cbn. rewrite app_nil_r. symmetry. apply Permutation_cons_append.
   - destruct (ss_recv_exited s).
     { exists s, []. split; [reflexivity|]. split; [exact Hd|]. split; [intros []|].
-      split; [now rewrite app_nil_r|]. split; [intros [H|H]; [exact H|discriminate]|discriminate]. }
+      split; [now rewrite app_nil_r|]. split; [split; [auto|intros [H|H]; [exact H|discriminate]]|discriminate]. }
     destruct (ss_pending s) as [|[f live] rest] eqn:P.
     + eexists _, _. split; [reflexivity|]. cbn [ss_dead ss_pending ss_closed_exited].
       split; [reflexivity|]. split; [intros []|]. split; [reflexivity|].
-      split; [intros [H|H]; [exact H|discriminate]|discriminate].
+      split; [split; [auto|intros [H|H]; [exact H|discriminate]]|discriminate].
     + eexists _, _. split; [reflexivity|]. cbn [ss_dead ss_pending ss_closed_exited].
       split; [reflexivity|]. destruct live; cbn.
       * split; [intros [H|[]]; discriminate|]. split; [now rewrite app_nil_r|].
-        split; [intros [H|H]; [exact H|discriminate]|discriminate].
+        split; [split; [auto|intros [H|H]; [exact H|discriminate]]|discriminate].
       * split; [intros []|]. split; [now rewrite app_nil_r|].
-        split; [intros [H|H]; [exact H|discriminate]|discriminate].
+        split; [split; [auto|intros [H|H]; [exact H|discriminate]]|discriminate].
   - destruct (ss_recv_exited s).
     { exists s, []. split; [reflexivity|]. split; [exact Hd|]. split; [intros []|].
-      split; [now rewrite app_nil_r|]. split; [intros [H|H]; [exact H|discriminate]|discriminate]. }
+      split; [now rewrite app_nil_r|]. split; [split; [auto|intros [H|H]; [exact H|discriminate]]|discriminate]. }
     eexists _, _. split; [reflexivity|]. cbn [ss_dead ss_pending ss_closed_exited].
     split; [reflexivity|]. split; [intros []|]. split; [now rewrite app_nil_r|].
-    split; [intros [H|H]; [exact H|discriminate]|discriminate].
+    split; [split; [auto|intros [H|H]; [exact H|discriminate]]|discriminate].
   - destruct (ss_closed_exited s) eqn:C.
     { exists s, []. split; [reflexivity|]. split; [exact Hd|]. split; [intros []|].
-      split; [now rewrite app_nil_r|]. split; [intros _; exact C|discriminate]. }
+      split; [now rewrite app_nil_r|]. split; [split; auto|discriminate]. }
     eexists _, _. split; [reflexivity|]. cbn [ss_dead ss_pending ss_closed_exited].
     split; [reflexivity|]. split; [apply eof_clean|].
-    split; [rewrite done_ids_eof; cbn; now rewrite !app_nil_r|]. split; reflexivity.
+    split; [rewrite done_ids_eof; cbn; now rewrite !app_nil_r|]. split; [split; auto|reflexivity].
+  - destruct (abandon g (ss_pending s)) as [p'|] eqn:A.
+    + destruct (abandon_spec _ _ _ A) as (P & _).
+      eexists _, _. split; [reflexivity|]. cbn [ss_dead ss_pending ss_closed_exited].
+      split; [reflexivity|]. split; [intros [H|[]]; discriminate|].
+      split; [rewrite app_nil_r; exact P|]. split; [split; [auto|intros [H|H]; [exact H|discriminate]]|discriminate].
+    + exists s, []. split; [reflexivity|]. split; [exact Hd|]. split; [intros []|].
+      split; [now rewrite app_nil_r|]. split; [split; [auto|intros [H|H]; [exact H|discriminate]]|discriminate].
 Qed.
 
 (* After closure, with the gRPC contract, nothing live is ever queued again *)
@@ -111,13 +154,14 @@ Lemma stream_step_closed_stays_empty s ev :
   (forall f ok, ev = SSend f ok -> ok = false) ->
   live_ids (ss_pending (fst (stream_step true s ev))) = [].
 Proof.
-  intros Hd Hc Hl Hs. unfold stream_step. rewrite Hd. destruct ev as [f ok|r| |].
+  intros Hd Hc Hl Hs. unfold stream_step. rewrite Hd. destruct ev as [f ok|r| | |g].
   - rewrite (Hs f ok eq_refl). cbn. rewrite live_ids_app, Hl. reflexivity.
   - destruct (ss_recv_exited s); [exact Hl|].
     destruct (ss_pending s) as [|[f live] rest] eqn:P; cbn; [reflexivity|].
     cbn in Hl. destruct live; [discriminate|exact Hl].
   - destruct (ss_recv_exited s); [exact Hl|]. cbn. exact Hl.
   - rewrite Hc. exact Hl.
+  - rewrite (abandon_none_of_dead g _ Hl). exact Hl.
 Qed.
 
 Lemma stream_run_count : forall evs s broken,
@@ -131,23 +175,16 @@ Proof.
   - exists s, []. split; [reflexivity|]. split; [exact Hd|]. split; [intros []|].
     split; [now rewrite app_nil_r|]. intros [H|[]]. exact (proj2 (Hcl H)).
   - destruct (stream_step_count s ev Hd) as (s1 & o1 & Hs & Hd1 & Hc1 & Hp1 & Hce1 & Hemp1). rewrite Hs.
-    set (broken1 := match ev with SSend _ ok => broken || negb ok | SCtxDone => true | _ => broken end).
-    assert (Hst1 : sticky broken1 evs).
-    { unfold broken1. destruct ev as [f ok|r| |]; cbn in Hst; tauto. }
-    assert (Hcl1 : ss_closed_exited s1 = true -> broken1 = true /\ live_ids (ss_pending s1) = []).
+    destruct (sticky_cons _ _ _ Hst) as (Hst0 & Hst1).
+    assert (Hcl1 : ss_closed_exited s1 = true -> next_broken broken ev = true /\ live_ids (ss_pending s1) = []).
     { intros H1. destruct (ss_closed_exited s) eqn:C.
       - destruct (Hcl eq_refl) as (Hb & Hl). split.
-        + unfold broken1. destruct ev; rewrite ?Hb; reflexivity.
+        + unfold next_broken. destruct ev; rewrite ?Hb; reflexivity.
         + pose proof (stream_step_closed_stays_empty s ev Hd C Hl) as H. rewrite Hs in H. apply H.
-          intros f ok ->. cbn in Hst. destruct Hst as (Hf & _). exact (Hf Hb).
-      - (* closed right now: ev must be SCtxDone *)
-        assert (ev = SCtxDone).
-        { unfold stream_step in Hs. rewrite Hd in Hs.
-          destruct ev as [f ok|r| |]; [destruct ok|destruct (ss_recv_exited s); [|destruct (ss_pending s) as [|[? ?] ?]]
-                                      |destruct (ss_recv_exited s)|reflexivity];
-            inversion Hs; subst; cbn in H1; congruence. }
-        subst ev. split; [reflexivity|]. apply Hemp1; auto. }
-    destruct (IH s1 broken1 Hd1 Hst1 Hcl1) as (s2 & o2 & Hr & Hd2 & Hc2 & Hp2 & Hfin). rewrite Hr.
+          intros f ok E. exact (Hst0 f ok E Hb).
+      - apply Hce1 in H1. destruct H1 as [H1|H1]; [discriminate|]. subst ev.
+        split; [reflexivity|]. apply Hemp1; auto. }
+    destruct (IH s1 _ Hd1 Hst1 Hcl1) as (s2 & o2 & Hr & Hd2 & Hc2 & Hp2 & Hfin). rewrite Hr.
     exists s2, (o1 ++ o2). split; [reflexivity|]. split; [exact Hd2|].
     split; [intros H; apply in_app_or in H; tauto|]. split.
     + rewrite done_ids_app.
@@ -162,51 +199,32 @@ Qed.
 
 (* ---- FIFO matching ---- *)
 
-Definition lives (l : list N) : list (N * bool) := map (fun f => (f, true)) l.
 Definition all_dead (p : list (N * bool)) : Prop := Forall (fun fl => snd fl = false) p.
 
-(* "aligned": so far every response has been handed to the request it answers; the live part of the queue
-   is exactly the not-yet-answered successfully sent requests, in order, followed by failed sends.
-   "finished": no successful completion can happen any more (the receive loop has returned, or the stream is
-   broken and only futures of failed sends are queued). *)
+(* the completion (f, r) pairs the i-th successfully sent request with the i-th response received, for some i *)
+Definition paired (oks recvs : list N) (fr : N * N) : Prop :=
+  exists i, nth_error oks i = Some (fst fr) /\ nth_error recvs i = Some (snd fr).
+
+(* "aligned": every response so far was handed to the future of the request it answers -- whether or not
+   somebody still waited on it; the queue holds the futures of the not-yet-answered successfully sent requests,
+   in order (abandoned ones included), followed by the futures of failed sends.
+   "finished": no successful completion can happen any more. *)
 Definition fifo_inv (s : sstate) (broken : bool) (oks recvs : list N) (dones : list (N * N)) : Prop :=
-  dones = firstn (length dones) (combine oks recvs) /\
-  ( (ss_recv_exited s = false /\ length recvs = length dones /\
-     exists deads, ss_pending s = lives (skipn (length dones) oks) ++ deads /\ all_dead deads /\
-                   (deads <> [] -> broken = true))
+  Forall (paired oks recvs) dones /\
+  ( (ss_recv_exited s = false /\ length recvs <= length oks /\
+     exists q deads, ss_pending s = q ++ deads /\ map fst q = skipn (length recvs) oks /\ all_dead deads /\
+                     (deads <> [] -> broken = true))
     \/ ss_recv_exited s = true
     \/ (broken = true /\ all_dead (ss_pending s)) ).
 
-Lemma firstn_combine_app_l {A B} (l1 l1' : list A) (l2 l2' : list B) k :
-  k <= length l1 -> k <= length l2 ->
-  firstn k (combine (l1 ++ l1') (l2 ++ l2')) = firstn k (combine l1 l2).
+Lemma paired_app oks oks' recvs recvs' fr : paired oks recvs fr -> paired (oks ++ oks') (recvs ++ recvs') fr.
 Proof.
-  revert l1 l2. induction k as [|k IH]; intros l1 l2 H1 H2; [reflexivity|].
-  destruct l1 as [|a l1]; [cbn in H1; lia|]. destruct l2 as [|b l2]; [cbn in H2; lia|].
-  cbn in *. f_equal. apply IH; lia.
+  intros (i & H1 & H2). exists i. split; rewrite nth_error_app1; auto; apply nth_error_Some; congruence.
 Qed.
 
-Lemma prefix_stable {A B} (d : list (A * B)) (l1 l1' : list A) (l2 l2' : list B) :
-  d = firstn (length d) (combine l1 l2) ->
-  d = firstn (length d) (combine (l1 ++ l1') (l2 ++ l2')).
-Proof.
-  intros H.
-  assert (Hl : length d <= length (combine l1 l2)).
-  { rewrite H at 1. rewrite firstn_length. lia. }
-  rewrite combine_length in Hl.
-  rewrite firstn_combine_app_l by lia. exact H.
-Qed.
-
-Lemma prefix_extend {A B} : forall (l2 : list B) (l1 : list A) f rest r,
-  skipn (length l2) l1 = f :: rest ->
-  firstn (S (length l2)) (combine l1 (l2 ++ [r])) = firstn (length l2) (combine l1 l2) ++ [(f, r)].
-Proof.
-  induction l2 as [|b l2 IH]; intros l1 f rest r Hs.
-  - cbn in Hs. subst l1. reflexivity.
-  - destruct l1 as [|a l1]; [discriminate|]. cbn [length skipn] in Hs.
-    cbn [length app combine firstn]. f_equal.
-    apply (IH l1 f rest r Hs).
-Qed.
+Lemma paired_all_app oks oks' recvs recvs' d :
+  Forall (paired oks recvs) d -> Forall (paired (oks ++ oks') (recvs ++ recvs')) d.
+Proof. intros H. eapply Forall_impl; [|exact H]. intros a. apply paired_app. Qed.
 
 Lemma skipn_S_tail {A} : forall k (l : list A) f rest, skipn k l = f :: rest -> skipn (S k) l = rest.
 Proof.
@@ -215,111 +233,147 @@ Proof.
   - destruct l as [|a l]; [discriminate|]. cbn [skipn] in *. exact (IH l f rest H).
 Qed.
 
-Lemma skipn_cons_lt {A} : forall k (l : list A) f rest, skipn k l = f :: rest -> k < length l.
+Lemma skipn_cons_nth {A} : forall k (l : list A) f rest,
+  skipn k l = f :: rest -> nth_error l k = Some f /\ k < length l.
 Proof.
   induction k as [|k IH]; intros l f rest H.
-  - destruct l; [discriminate|cbn; lia].
-  - destruct l as [|a l]; [discriminate|]. cbn in *. specialize (IH l f rest H). lia.
+  - destruct l; [discriminate|]. cbn in H. inversion H; subst. cbn. split; [reflexivity|lia].
+  - destruct l as [|a l]; [discriminate|]. cbn in *. destruct (IH l f rest H). split; [assumption|lia].
 Qed.
 
 Lemma all_dead_app p q : all_dead p -> all_dead q -> all_dead (p ++ q).
 Proof. intros H1 H2. apply Forall_app. split; assumption. Qed.
+
+Lemma all_dead_live p : all_dead p -> live_ids p = [].
+Proof.
+  induction p as [|[g l] p IH]; intros H; [reflexivity|]. inversion H; subst. cbn in *. subst l.
+  unfold live_ids in *. cbn. apply IH. assumption.
+Qed.
+
+(* abandoning touches only the part of the queue somebody waits on *)
+Lemma abandon_app_dead f : forall q deads p',
+  all_dead deads -> abandon f (q ++ deads) = Some p' ->
+  exists q', p' = q' ++ deads /\ map fst q' = map fst q.
+Proof.
+  induction q as [|[g live] q IH]; intros deads p' Hd H.
+  - cbn [app] in H. rewrite (abandon_none_of_dead f deads (all_dead_live _ Hd)) in H. discriminate.
+  - cbn [app abandon] in H. destruct (N.eqb g f && live).
+    + inversion H; subst. exists ((g, false) :: q). split; reflexivity.
+    + destruct (abandon f (q ++ deads)) as [tl'|] eqn:A; [|discriminate]. inversion H; subst.
+      destruct (IH deads tl' Hd A) as (q' & -> & M). exists ((g, live) :: q'). split; [reflexivity|cbn; now rewrite M].
+Qed.
+
+Ltac pre_tac Hpre Hpre' oks recvs :=
+  cbn [app]; rewrite ?app_nil_r;
+  first [ exact Hpre | apply Hpre' | rewrite <- (app_nil_r oks); apply Hpre' | rewrite <- (app_nil_r recvs); apply Hpre' ].
 
 Lemma fifo_step s ev s' o broken oks recvs dones :
   ss_dead s = false ->
   stream_step true s ev = (s', o) ->
   fifo_inv s broken oks recvs dones ->
   (forall f ok, ev = SSend f ok -> broken = true -> ok = false) ->
-  fifo_inv s'
-    (match ev with SSend _ ok => broken || negb ok | SCtxDone => true | _ => broken end)
+  fifo_inv s' (next_broken broken ev)
     (oks ++ match ev with SSend f true => [f] | _ => [] end)
     (recvs ++ match ev with SRecvOk r => [r] | _ => [] end)
     (dones ++ ok_dones o).
 Proof.
   intros Hd Hs (Hpre & Hphase) Hst. unfold stream_step in Hs. rewrite Hd in Hs.
-  destruct Hphase as [(Hre & Hlen & deads & Hp & Hdd & Hbr)|[Hre|(Hb & Hdead)]].
+  assert (Hpre' : forall a b, Forall (paired (oks ++ a) (recvs ++ b)) dones) by (intros; now apply paired_all_app).
+  destruct Hphase as [(Hre & Hle & q & deads & Hp & Hq & Hdd & Hbr)|[Hre|(Hb & Hdead)]].
   - (* aligned *)
-    destruct ev as [f ok|r| |].
+    destruct ev as [f ok|r| | |g]; cbn [next_broken].
     + destruct ok; inversion Hs; subst s' o; clear Hs; cbn [ok_dones flat_map]; rewrite !app_nil_r.
       * assert (deads = []).
         { destruct deads as [|d ds]; [reflexivity|].
           specialize (Hbr ltac:(discriminate)). specialize (Hst f true eq_refl Hbr). discriminate. }
         subst deads. rewrite app_nil_r in Hp.
-        split; [rewrite <- (app_nil_r recvs); apply prefix_stable; exact Hpre|].
-        left. cbn [ss_recv_exited ss_pending]. split; [exact Hre|]. split; [exact Hlen|].
-        exists []. split; [|split; [constructor|congruence]].
-        assert (Hle : length dones <= length oks).
-        { rewrite Hpre. rewrite firstn_length, combine_length. lia. }
-        rewrite app_nil_r, Hp. rewrite skipn_app. replace (length dones - length oks) with 0 by lia.
-        cbn [skipn]. unfold lives. rewrite map_app. reflexivity.
-      * split; [exact Hpre|].
-        left. cbn [ss_recv_exited ss_pending]. split; [exact Hre|]. split; [exact Hlen|].
-        exists (deads ++ [(f, false)]). split; [rewrite Hp, app_assoc; reflexivity|].
-        split; [apply all_dead_app; [exact Hdd|repeat constructor]|].
+        split; [rewrite <- (app_nil_r recvs); apply Hpre'|].
+        left. cbn [ss_recv_exited ss_pending]. split; [exact Hre|]. split; [rewrite app_length; lia|].
+        exists (q ++ [(f, true)]), []. split; [now rewrite app_nil_r, Hp|].
+        split; [|split; [constructor|congruence]].
+        rewrite map_app, Hq. cbn. rewrite skipn_app. replace (length recvs - length oks) with 0 by lia.
+        reflexivity.
+      * split; [rewrite <- (app_nil_r oks), <- (app_nil_r recvs); apply Hpre'|].
+        left. cbn [ss_recv_exited ss_pending]. split; [exact Hre|]. split; [exact Hle|].
+        exists q, (deads ++ [(f, false)]). split; [rewrite Hp, app_assoc; reflexivity|].
+        split; [exact Hq|]. split; [apply all_dead_app; [exact Hdd|repeat constructor]|].
         intros _. now rewrite orb_true_r.
     + rewrite Hre in Hs. rewrite app_nil_r. rewrite Hp in Hs.
-      destruct (skipn (length dones) oks) as [|f rest] eqn:Sk; cbn [lives map app] in Hs.
-      * destruct deads as [|[fd ld] ds]; inversion Hs; subst s' o; clear Hs.
+      destruct q as [|[f live] q'].
+      * (* no request of the aligned part is outstanding *)
+        cbn [app] in Hs.
+        destruct deads as [|[fd ld] ds]; inversion Hs; subst s' o; clear Hs.
         -- cbn [ok_dones flat_map]. rewrite app_nil_r.
-           split; [rewrite <- (app_nil_r oks); apply prefix_stable; exact Hpre|].
-           right. left. reflexivity.
+           split; [rewrite <- (app_nil_r oks); apply Hpre'|]. right. left. reflexivity.
         -- assert (ld = false) by (inversion Hdd; subst; assumption). subst ld.
            cbn [ok_dones flat_map]. rewrite app_nil_r.
-           split; [rewrite <- (app_nil_r oks); apply prefix_stable; exact Hpre|].
+           split; [rewrite <- (app_nil_r oks); apply Hpre'|].
            right. right. cbn [ss_pending]. split; [apply Hbr; discriminate|now inversion Hdd].
-      * inversion Hs; subst s' o; clear Hs. cbn [ok_dones flat_map app].
+      * cbn [map fst] in Hq. symmetry in Hq.
+        destruct (skipn_cons_nth _ _ _ _ Hq) as (Hn & Hlt).
+        cbn [app] in Hs. inversion Hs; subst s' o; clear Hs.
         split.
-        -- rewrite app_length. cbn [length]. rewrite Nat.add_1_r.
-           rewrite <- Hlen. rewrite (prefix_extend recvs oks f rest r) by (rewrite Hlen; exact Sk).
-           rewrite Hlen. rewrite <- Hpre. reflexivity.
+        -- apply Forall_app. split; [rewrite <- (app_nil_r oks); apply Hpre'|].
+           destruct live; cbn [ok_dones flat_map app]; [|constructor].
+           constructor; [|constructor]. exists (length recvs). cbn [fst snd]. split; [exact Hn|].
+           rewrite nth_error_app2 by lia. rewrite Nat.sub_diag. reflexivity.
         -- left. cbn [ss_recv_exited ss_pending]. split; [reflexivity|].
-           split; [rewrite !app_length; cbn; lia|].
-           exists deads. rewrite app_length. cbn [length]. rewrite Nat.add_1_r.
-           split; [|split; [exact Hdd|exact Hbr]].
-           now rewrite (skipn_S_tail _ _ _ _ Sk).
+           split; [rewrite app_length; cbn; lia|].
+           exists q', deads. split; [reflexivity|]. split; [|split; [exact Hdd|exact Hbr]].
+           rewrite app_length. cbn [length]. rewrite Nat.add_1_r. symmetry. exact (skipn_S_tail _ _ _ _ Hq).
     + rewrite Hre in Hs. inversion Hs; subst s' o; clear Hs. cbn [ok_dones flat_map]. rewrite !app_nil_r.
       split; [exact Hpre|]. right. left. reflexivity.
     + destruct (ss_closed_exited s); inversion Hs; subst s' o; clear Hs.
       * cbn [ok_dones flat_map]. rewrite !app_nil_r. split; [exact Hpre|].
-        left. split; [exact Hre|]. split; [exact Hlen|]. exists deads. split; [exact Hp|]. split; [exact Hdd|reflexivity].
+        left. split; [exact Hre|]. split; [exact Hle|]. exists q, deads. split; [exact Hp|]. split; [exact Hq|].
+        split; [exact Hdd|reflexivity].
       * rewrite ok_dones_eof, !app_nil_r. split; [exact Hpre|].
         right. right. cbn [ss_pending]. split; [reflexivity|constructor].
+    + (* a caller abandons its request: the future keeps its place *)
+      rewrite !app_nil_r.
+      destruct (abandon g (ss_pending s)) as [p'|] eqn:A; inversion Hs; subst s' o; clear Hs;
+        cbn [ok_dones flat_map]; rewrite app_nil_r; (split; [exact Hpre|]).
+      * rewrite Hp in A. destruct (abandon_app_dead _ _ _ _ Hdd A) as (q' & -> & M).
+        left. cbn [ss_recv_exited ss_pending]. split; [exact Hre|]. split; [exact Hle|].
+        exists q', deads. split; [reflexivity|]. split; [now rewrite M|]. split; [exact Hdd|exact Hbr].
+      * left. split; [exact Hre|]. split; [exact Hle|]. exists q, deads. auto.
   - (* the receive loop has returned *)
     assert (Hre' : ss_recv_exited s' = true /\ ok_dones o = []).
-    { destruct ev as [f ok|r| |].
+    { destruct ev as [f ok|r| | |g].
       - destruct ok; inversion Hs; subst; cbn; auto.
       - rewrite Hre in Hs. inversion Hs; subst; auto.
       - rewrite Hre in Hs. inversion Hs; subst; auto.
-      - destruct (ss_closed_exited s); inversion Hs; subst; cbn [ss_recv_exited]; auto using ok_dones_eof. }
+      - destruct (ss_closed_exited s); inversion Hs; subst; cbn [ss_recv_exited]; auto using ok_dones_eof.
+      - destruct (abandon g (ss_pending s)); inversion Hs; subst; cbn; auto. }
     destruct Hre' as (Hre' & Ho). rewrite Ho, app_nil_r.
-    split; [apply prefix_stable; exact Hpre|]. right. left. exact Hre'.
+    split; [pre_tac Hpre Hpre' oks recvs|]. right. left. exact Hre'.
   - (* broken, only dead futures queued *)
-    destruct ev as [f ok|r| |].
+    destruct ev as [f ok|r| | |g]; cbn [next_broken].
     + rewrite (Hst f ok eq_refl Hb) in *. inversion Hs; subst s' o; clear Hs.
-      cbn [ok_dones flat_map]. rewrite !app_nil_r. split; [exact Hpre|].
+      cbn [ok_dones flat_map]. rewrite app_nil_r. split; [pre_tac Hpre Hpre' oks recvs|].
       right. right. cbn [ss_pending]. split; [now rewrite Hb|].
       apply all_dead_app; [exact Hdead|repeat constructor].
     + destruct (ss_recv_exited s) eqn:Hre.
-      { inversion Hs; subst s' o; clear Hs. cbn [ok_dones flat_map]. rewrite !app_nil_r.
-        split; [rewrite <- (app_nil_r oks); apply prefix_stable; exact Hpre|]. right. left. exact Hre. }
+      { inversion Hs; subst s' o; clear Hs. cbn [ok_dones flat_map]. rewrite app_nil_r.
+        split; [pre_tac Hpre Hpre' oks recvs|]. right. left. exact Hre. }
       destruct (ss_pending s) as [|[fd ld] ds] eqn:P; inversion Hs; subst s' o; clear Hs.
-      * cbn [ok_dones flat_map]. rewrite !app_nil_r.
-        split; [rewrite <- (app_nil_r oks); apply prefix_stable; exact Hpre|]. right. left. reflexivity.
+      * cbn [ok_dones flat_map]. rewrite app_nil_r. split; [pre_tac Hpre Hpre' oks recvs|]. right. left. reflexivity.
       * assert (ld = false) by (inversion Hdead; subst; assumption). subst ld.
-        cbn [ok_dones flat_map]. rewrite !app_nil_r.
-        split; [rewrite <- (app_nil_r oks); apply prefix_stable; exact Hpre|].
+        cbn [ok_dones flat_map]. rewrite app_nil_r. split; [pre_tac Hpre Hpre' oks recvs|].
         right. right. cbn [ss_pending]. split; [exact Hb|now inversion Hdead].
     + destruct (ss_recv_exited s) eqn:Hre; inversion Hs; subst s' o; clear Hs;
-        cbn [ok_dones flat_map]; rewrite !app_nil_r; (split; [exact Hpre|]); right; left; [exact Hre|reflexivity].
+        cbn [ok_dones flat_map]; rewrite app_nil_r; (split; [pre_tac Hpre Hpre' oks recvs|]); right; left; [exact Hre|reflexivity].
     + destruct (ss_closed_exited s); inversion Hs; subst s' o; clear Hs.
-      * cbn [ok_dones flat_map]. rewrite !app_nil_r. split; [exact Hpre|]. right. right. split; [reflexivity|exact Hdead].
-      * rewrite ok_dones_eof, !app_nil_r. split; [exact Hpre|]. right. right. cbn [ss_pending].
+      * cbn [ok_dones flat_map]. rewrite app_nil_r. split; [pre_tac Hpre Hpre' oks recvs|]. right. right. split; [reflexivity|exact Hdead].
+      * rewrite ok_dones_eof, app_nil_r. split; [pre_tac Hpre Hpre' oks recvs|]. right. right. cbn [ss_pending].
         split; [reflexivity|constructor].
+    + rewrite (abandon_none_of_dead g _ (all_dead_live _ Hdead)) in Hs. inversion Hs; subst s' o; clear Hs.
+      cbn [ok_dones flat_map]. rewrite app_nil_r. split; [pre_tac Hpre Hpre' oks recvs|]. right. right. auto.
 Qed.
 
 Lemma ok_sends_cons ev evs :
   ok_sends (ev :: evs) = match ev with SSend f true => [f] | _ => [] end ++ ok_sends evs.
-Proof. unfold ok_sends. cbn [flat_map]. destruct ev as [f [|]| | |]; reflexivity. Qed.
+Proof. unfold ok_sends. cbn [flat_map]. destruct ev as [f [|]| | | |g]; reflexivity. Qed.
 
 Lemma recv_payloads_cons ev evs :
   recv_payloads (ev :: evs) = match ev with SRecvOk r => [r] | _ => [] end ++ recv_payloads evs.
@@ -333,11 +387,8 @@ Proof.
   induction evs as [|ev evs IH]; intros s broken oks recvs dones Hd Hinv Hst; cbn [stream_run_from].
   - exists s, [], broken. split; [reflexivity|]. cbn. now rewrite !app_nil_r.
   - destruct (stream_step_count s ev Hd) as (s1 & o1 & Hs & Hd1 & _). rewrite Hs.
-    assert (Hst0 : forall f ok, ev = SSend f ok -> broken = true -> ok = false).
-    { intros f ok -> Hb. cbn in Hst. tauto. }
+    destruct (sticky_cons _ _ _ Hst) as (Hst0 & Hst1).
     pose proof (fifo_step s ev s1 o1 broken oks recvs dones Hd Hs Hinv Hst0) as Hinv1.
-    assert (Hst1 : sticky (match ev with SSend _ ok => broken || negb ok | SCtxDone => true | _ => broken end) evs).
-    { destruct ev as [f ok|r| |]; cbn in Hst; tauto. }
     destruct (IH s1 _ _ _ _ Hd1 Hinv1 Hst1) as (s2 & o2 & b2 & Hr & Hinv2). rewrite Hr.
     exists s2, (o1 ++ o2), b2. split; [reflexivity|].
     rewrite ok_sends_cons, recv_payloads_cons, ok_dones_app, !app_assoc. exact Hinv2.
@@ -345,17 +396,21 @@ Qed.
 
 (* ---- the theorems ---- *)
 
-(* The i-th successful completion is (i-th successfully sent request, i-th response received). *)
+(* Every successful completion hands a request the response that answers it: there is an i such that the
+   request is the i-th successfully sent one and the response the i-th one received -- requests whose caller
+   gave up in between (per-request timeout / cancellation) keep their place in the count. *)
 Theorem stream_fifo : forall evs s tr,
   sticky false evs -> stream_run true evs = (s, tr) ->
-  ok_dones tr = firstn (length (ok_dones tr)) (combine (ok_sends evs) (recv_payloads evs)).
+  forall f r, In (f, r) (ok_dones tr) ->
+    exists i, nth_error (ok_sends evs) i = Some f /\ nth_error (recv_payloads evs) i = Some r.
 Proof.
-  intros evs s tr Hst Hr.
+  intros evs s tr Hst Hr f r Hin.
   assert (Hinv : fifo_inv sinit false [] [] []).
-  { split; [reflexivity|]. left. split; [reflexivity|]. split; [reflexivity|].
-    exists []. repeat split; auto. constructor. }
+  { split; [constructor|]. left. split; [reflexivity|]. split; [cbn; lia|].
+    exists [], []. repeat split; auto. constructor. }
   destruct (fifo_run evs sinit false [] [] [] eq_refl Hinv Hst) as (s' & tr' & b' & Hr' & (Hpre & _)).
-  unfold stream_run in Hr. rewrite Hr in Hr'. inversion Hr'; subst. exact Hpre.
+  unfold stream_run in Hr. rewrite Hr in Hr'. inversion Hr'; subst. cbn [app] in Hpre.
+  rewrite Forall_forall in Hpre. exact (Hpre (f, r) Hin).
 Qed.
 
 (* No panic; every Send() either has returned exactly once or is still waiting; after the stream context is
@@ -394,11 +449,14 @@ Proof.
 Qed.
 
 Definition ex_sevs : list sevent :=
-  [SSend 1 true; SSend 2 true; SRecvOk 10; SSend 3 true; SRecvOk 20; SSend 4 false; SSend 5 false;
-   SCtxDone; SRecvOk 30; SSend 6 false].
+  [SSend 1 true; SSend 2 true; SRecvOk 10; SWaitCancel 2; SSend 3 true; SRecvOk 20; SRecvOk 30; SSend 7 true;
+   SSend 4 false; SSend 5 false; SCtxDone; SRecvOk 40; SSend 6 false].
 
+(* request 2 is abandoned while on the wire: its late response (20) is swallowed by its own future, request 3
+   gets its own response (30) *)
 Example stream_nonvacuous :
   sticky false ex_sevs /\
   snd (stream_run true ex_sevs) =
-    [SDone 1 (SOk 10); SDone 2 (SOk 20); SDone 4 SErrSend; SDone 5 SErrSend; SDone 3 SEOF; SDone 6 SErrSend].
+    [SDone 1 (SOk 10); SDone 2 SErrCtx; SDone 3 (SOk 30); SDone 4 SErrSend; SDone 5 SErrSend; SDone 7 SEOF;
+     SDone 6 SErrSend].
 Proof. split; [cbn; repeat split; intros; congruence|vm_compute; reflexivity]. Qed.
